@@ -463,12 +463,13 @@ pub fn run(ctx: &Ctx) -> EngineResult {
     let mut exhaustive = true;
     let mut scn_reports = Vec::new();
     for s in &scns {
-        let deadline = Instant::now() + Duration::from_secs_f64(per);
-        let cfg = pool(ctx.threads, Some(deadline));
         let scenario = json!({"family": s.family, "resources": s.resources, "advances": s.advances});
         let fam = s.family;
         let nres = s.resources;
-        let stats = x3::explore(
+        let explore = |seconds: f64| {
+        let deadline = Instant::now() + Duration::from_secs_f64(seconds);
+        let cfg = pool(ctx.threads, Some(deadline));
+        x3::explore(
             &cfg,
             &scenario,
             s.bound,
@@ -491,7 +492,15 @@ pub fn run(ctx: &Ctx) -> EngineResult {
                 }
             },
         )
-        .map_err(Machinery)?;
+        };
+        let mut stats = explore(per).map_err(Machinery)?;
+        if stats.capped && stats.completed_bound.is_none() && stats.violations.is_empty() {
+            // the wall share ran out before even the schedules without a deviation were done (a busy
+            // machine: worker start-up alone can take that long): the scenario is explored again
+            // with a larger share instead of being reported as (vacuously) covered
+            eprintln!("[C20] {} x{}: wall share of {per:.1}s ended before bound 0 was complete, exploring again with {:.1}s", s.family, s.resources, per * 8.0);
+            stats = explore(per * 8.0).map_err(Machinery)?;
+        }
         // confirm each violation by re-executing its schedule twice
         let cfg1 = pool(1, None);
         for v in stats.violations.iter() {
@@ -538,6 +547,7 @@ pub fn run(ctx: &Ctx) -> EngineResult {
             "max_decisions_per_execution": stats.max_decisions,
             "max_steps_per_execution": stats.max_steps,
             "horizon_hits": stats.horizon_hits,
+            "executions_retried_after_wall_timeout": stats.retried_timeouts,
             "deadlocks": stats.deadlocks,
         }));
         eprintln!(
